@@ -54,13 +54,15 @@ func c12Scenarios(tier string) []*explore.Scenario {
 var c12Conn = [][]string{
 	{"Upgrade"}, {"upgrade"}, {"UPGRADE"}, {"keep-alive, Upgrade"}, {"Upgrade, keep-alive"}, {" \tUpgrade\t "}, {"keep-alive", "Upgrade"}, {"a,b , upGRade"},
 	{"xupgrade"}, {"upgrade2"}, {"upgrades"}, {"keep-alive"}, nil, {"up grade"}, {"keep-alive Upgrade"}, {",Upgrade"}, {"Upgrade;q=1"}, {"\"Upgrade\""}, {"keep-alive", "xupgrade, upgradex"},
+	{"keep-alive,", "Upgrade, HTTP2-Settings"}, {"h2c/1 x", "Upgrade, HTTP2-Settings"}, {"", "keep-alive, Upgrade"}, {"a,, b", "x, upgrade"}, {"Upgrade, HTTP2-Settings", "bad element"},
 }
 var c12Upg = [][]string{
 	{"websocket"}, {"WebSocket"}, {"WEBSOCKET"}, {"h2c, websocket"}, {"websocket, h2c"}, {"\twebsocket "}, {"h2c", "websocket"},
 	{"websockets"}, {"xwebsocket"}, {"websocket2"}, {"web socket"}, {"h2c"}, nil, {"websocket/13"}, {"h2c websocket"}, {"h2c", "websockets, awebsocket"},
 	{"websoc\u212aet"}, {"web\u017focket"}, {"h2c, websoc\u212aet"}, {"bad element here", "websocket"}, {"websocket", "bad element here"},
+	{"h2c,", "websocket, h2c"}, {"h2c/2 y", "h2c, websocket"}, {"", "websocket, x"},
 }
-var c12Ver = [][]string{{"13"}, {"8"}, {"13, 8"}, {"8, 13"}, {""}, {"013"}, {"13 "}, nil, {"8", "13"}, {"1 3"}, {"13.0"}, {"130"}, {"113"}, {"1"}, {"3"}, {"13a"}}
+var c12Ver = [][]string{{"13"}, {"8"}, {"13, 8"}, {"8, 13"}, {""}, {"013"}, {"13 "}, nil, {"8", "13"}, {"1 3"}, {"13.0"}, {"130"}, {"113"}, {"1"}, {"3"}, {"13a"}, {"8,", "13"}, {"", "13"}}
 
 func b64n(n int) string { return base64.StdEncoding.EncodeToString(Pattern(3, n)) }
 
